@@ -20,10 +20,10 @@ Proof. intros f p rest st Hp H. cbn [force]. rewrite Hp, H. reflexivity. Qed.
     (stated on the compositional semantics: evaluating a promise with no polls
     left is [VCancel]) *)
 Lemma no_polls_no_work :
-  forall p st o st', s_polls st = Some O -> Eval p st o st' -> o = VCancel /\ st' = st.
+  forall p st o st', is_fuel_err p = false -> s_polls st = Some O -> Eval p st o st' -> o = VCancel /\ st' = st.
 Proof.
-  intros p st o st' H Hev.
-  inversion Hev; subst; try (unfold poll in *; rewrite H in *; discriminate).
+  intros p st o st' Hfe H Hev.
+  inversion Hev; subst; try (unfold poll in *; rewrite H in *; discriminate); try congruence.
   split; reflexivity.
 Qed.
 
